@@ -121,6 +121,16 @@ func (d *c11Driver) drive(c c11Scenario) {
 					}
 				}
 			}
+			if ev.K == "kubectl" && strings.HasPrefix(ev.B, "canary-") {
+				// the user issues a canary command once its precondition holds (a canary is running): under a fault the
+				// controller may get there later than in the failure-free run
+				for r := 0; r < 10; r++ {
+					if e := d.s.EDS("ns", "foo"); e != nil && e.Status.Canary != nil {
+						break
+					}
+					d.round()
+				}
+			}
 			if applicable(d.s, ev) {
 				d.do(ev)
 			} else {
@@ -280,6 +290,12 @@ func c11Scenarios() []c11Scenario {
 			[][]w.Event{{evb("setTemplate", edsKey, "B")}, {w.Event{K: "kubectl", A: edsKey, B: "canary-validate"}}}},
 		{"canary-failure-and-rollback", timed(scOpt{name: "C11-canary-failure", nodes: n2, eds: []w.EDSOpt{w.WithCanary("1", 10*time.Minute, 0, "auto"), w.WithAuto(true, 1, true, 2)}}),
 			[][]w.Event{{evb("setTemplate", edsKey, "B")}, {w.Event{K: "restart", A: "ns/foo-CANARY", N: 3}}}},
+		// the canary is failed by the user before any canary pod exists: nothing else changes the status afterwards
+		{"canary-fail-before-pods", timed(scOpt{name: "C11-canary-fail-early", nodes: n2, eds: []w.EDSOpt{w.WithCanary("1", 10*time.Minute, 0, "auto"), w.WithAuto(true, 1, true, 2)}}),
+			[][]w.Event{{evb("setTemplate", edsKey, "B"), ev("R_eds", edsKey), ev("R_eds", edsKey), w.Event{K: "kubectl", A: edsKey, B: "canary-fail"}}}},
+		// a paused canary is validated (the annotations must be cleared at promotion), then the next rollout starts
+		{"canary-paused-validated-next-rollout", timed(scOpt{name: "C11-paused-validated", nodes: n2, eds: []w.EDSOpt{w.WithCanary("1", 0, 0, "manual")}}),
+			[][]w.Event{{evb("setTemplate", edsKey, "B")}, {w.Event{K: "kubectl", A: edsKey, B: "canary-pause"}}, {w.Event{K: "kubectl", A: edsKey, B: "canary-validate"}}, {evb("setTemplate", edsKey, "C")}}},
 		{"node-removal", timed(scOpt{name: "C11-node-removal", nodes: []string{"n1", "n2", "n3"}}), [][]w.Event{{w.Event{K: "delNode", A: "n2"}}}},
 		{"settings-change", timed(scOpt{name: "C11-settings-change", nodes: n2, extra: []client.Object{set}}), [][]w.Event{{w.Event{K: "R_set", A: "ns/set1"}}}},
 	}
@@ -340,5 +356,5 @@ func TestC11(t *testing.T) {
 	run.Sample(c11Fault{"R_ers(ns/foo-8a9e59)", 1, "create Pod ns/", 0, "lost"})
 	run.Assumptions = []string{"a fault addresses a call by (step, verb/kind/name, occurrence), never by arrival order; a stop inside a parallel batch fails the batch members that sort after the target",
 		"process stop = the remaining calls of the reconcile fail and the next reconcile runs on fresh controller instances (empty back-off)"}
-	exit(run.Finish("for each corpus scenario (first deployment, rolling update, canary start and timed promotion, manual validation, canary failure and rollback, node removal, settings change) the failure-free canonical run fixes the list of API calls; for EVERY write call x {rejected, applied-but-answer-lost, process stop} (thorough: also rejected reads and pairs of faults) the run is replayed with the fault, the safety monitors C01/C03/C04/C05/C12/C13 watch every step, the fair closure follows and the final pods/status must equal the failure-free ones; non-trivial = distinct (scenario, fault kind, call kind)"))
+	exit(run.Finish("for each corpus scenario (first deployment, rolling update, canary start and timed promotion, manual validation, canary failure and rollback, canary failed before any pod exists, paused canary validated followed by the next rollout, node removal, settings change) the failure-free canonical run fixes the list of API calls; for EVERY write call x {rejected, applied-but-answer-lost, process stop} (thorough: also rejected reads and pairs of faults) the run is replayed with the fault, the safety monitors C01/C03/C04/C05/C12/C13 watch every step, the fair closure follows and the final pods/status must equal the failure-free ones; non-trivial = distinct (scenario, fault kind, call kind)"))
 }
